@@ -327,6 +327,23 @@ func (s *Spec) Ops(st *explore.State) []explore.Op {
 				return &cctypes.MsgAddDelegate{ChainName: s.Chain, OracleAddress: all[0].Acct.Bech(), Amount: cctypes.NewDelegateAmount(world.FX(s.Stakes[0]))}
 			}))
 		}
+		// a slashed (offline) oracle pays exactly its outstanding penalty (re-onlines without new stake)
+		// or the penalty plus one stake unit
+		for oi := 1; oi < bonded; oi++ {
+			o := all[oi]
+			orc, ok := k.GetOracle(ctx, o.Acct.Acc())
+			if !ok || orc.Online {
+				continue
+			}
+			for _, extra := range []int64{0, s.Stakes[0]} {
+				extra := extra
+				ops = append(ops, s.msgOp(fmt.Sprintf("AddDelegate(o%d,penalty+%d)", oi+1, extra), func(c sdk.Context) sdk.Msg {
+					cur, _ := k.GetOracle(c, o.Acct.Acc())
+					pen := cur.GetSlashAmount(k.GetSlashFraction(c))
+					return &cctypes.MsgAddDelegate{ChainName: s.Chain, OracleAddress: o.Acct.Bech(), Amount: cctypes.NewDelegateAmount(pen.Add(world.FX(extra)))}
+				}))
+			}
+		}
 		// governance removes the last bonded oracle / re-approves everybody
 		victim := all[bonded-1]
 		if k.IsProposalOracle(ctx, victim.Acct.Bech()) {
